@@ -134,6 +134,34 @@ def auxiliary_space_rule(chk, src):
            detail="the excitation operator must act on (P, its own auxiliary copy); a different naming creates the pair on the wrong auxiliary index or raises for a missing degree of freedom")
 
 
+
+def imag_copy_rule(chk, src):
+    """every evolution scheme starts from a fresh object in imaginary time just as in real time (real time: to_complex() copies; imaginary time must copy explicitly):
+    the adaptive wrapper evolves the same input three times per trial and relies on it"""
+    n = 0
+    for fi in src.funcs_in(MPS):
+        if fi.parent is not None or not fi.name.startswith("_evolve_"):
+            continue
+        for node in ast.walk(fi.node):
+            if not (isinstance(node, ast.If) and ("iscomplex" in unparse(node.test) or unparse(node.test) == "imag_time")):
+                continue
+            for branch, stmts in (("imaginary time", node.body), ("real time", node.orelse)):
+                for st in stmts:
+                    if isinstance(st, ast.Assign) and len(st.targets) == 1 and isinstance(st.targets[0], ast.Name):
+                        v = st.value
+                        root = v
+                        while isinstance(root, ast.Call) and isinstance(root.func, ast.Attribute):
+                            root = root.func.value
+                        if not (isinstance(root, ast.Name) and root.id == "self") or (isinstance(v, ast.Attribute)):
+                            continue
+                        fresh = isinstance(v, ast.Call) and isinstance(v.func, ast.Attribute) and v.func.attr in ("copy", "to_complex", "metacopy")
+                        n += 1
+                        chk.ob("imag-copy", f"{fi.qual} [{branch}]: {unparse(st)[:50]}", fresh, fi.where, unparse(v)[:60], "self.copy() / self.to_complex()", line=st.lineno,
+                               detail=f"{fi.qual} would evolve the caller's state in place in {branch}: the input is overwritten, and the adaptive step-doubling wrapper, which propagates the same "
+                                      "input by dt/2, dt/2 and dt, sees three aliases of one object (error estimate 0, every step accepted, total propagation 2*tau)")
+    return n
+
+
 def run(chk):
     src = chk.src
     chk.explanation = (
@@ -150,6 +178,8 @@ def run(chk):
     chk.rule("thermal-siblings", "ThermalProp.evolve_exact and evolve_prop use the same shifted exponent", 3)
     from . import tree_rules as TR
     TR.time_decoding(chk, src)
+    chk.rule("imag-copy", "evolution schemes work on a fresh object in both time modes", 4)
+    imag_copy_rule(chk, src)
     chk.rule("thermal-hamiltonian", "both thermal propagation paths and the energy bookkeeping use the Hamiltonian the job was given", 3)
     thermal_hamiltonian_rule(chk, src)
     chk.rule("solver-sibling", "Krylov and ODE branch integrate the same exponent in imaginary time", 6)
